@@ -7,13 +7,18 @@ package c08
 import (
 	"bufio"
 	"bytes"
+	"encoding/hex"
 	"encoding/json"
+	"errors"
 	"fmt"
 	"io"
 	"math"
+	"net"
 	"os"
 	"os/exec"
+	"sort"
 	"strconv"
+	"strings"
 	"testing"
 	"time"
 
@@ -352,6 +357,108 @@ func replayFile(t *testing.T, f string) {
 	if msg := Check(&p); msg != "" {
 		fail(t, "replay", &p, msg)
 	}
+}
+
+// TestBoundaryAlignment: every kind of item the encoder emits, placed at every alignment against the
+// stream decoder's 4096-byte read buffer (the item's first byte at offsets 4040..4100, i.e. each of
+// its bytes on either side of the refill) and followed by more than one buffer of further events:
+// the stream decoded as a whole must equal the events decoded one by one.
+func TestBoundaryAlignment(t *testing.T) {
+	_, ipn4, _ := net.ParseCIDR("10.1.2.0/24")
+	_, ipn6, _ := net.ParseCIDR("2001:db8:1:2::/64")
+	_, ipnm, _ := net.ParseCIDR("::ffff:10.1.2.0/120")
+	tm := time.Date(2024, 2, 3, 4, 5, 6, 789000000, time.UTC)
+	kinds := map[string]func(e *zerolog.Event) *zerolog.Event{
+		"ipprefix4": func(e *zerolog.Event) *zerolog.Event { return e.IPPrefix("v", *ipn4) },
+		"ipprefix6": func(e *zerolog.Event) *zerolog.Event { return e.IPPrefix("v", *ipn6) },
+		"ipprefixm": func(e *zerolog.Event) *zerolog.Event { return e.IPPrefix("v", *ipnm) },
+		"ip4":       func(e *zerolog.Event) *zerolog.Event { return e.IPAddr("v", net.IPv4(192, 168, 7, 9).To4()) },
+		"ip6":       func(e *zerolog.Event) *zerolog.Event { return e.IPAddr("v", net.ParseIP("2001:db8::7")) },
+		"mac":       func(e *zerolog.Event) *zerolog.Event { return e.MACAddr("v", net.HardwareAddr{1, 2, 3, 4, 5, 6}) },
+		"time":      func(e *zerolog.Event) *zerolog.Event { return e.Time("v", tm) },
+		"times":     func(e *zerolog.Event) *zerolog.Event { return e.Times("v", []time.Time{tm, tm.Add(time.Hour)}) },
+		"dur":       func(e *zerolog.Event) *zerolog.Event { return e.Dur("v", 1500*time.Microsecond) },
+		"float64":   func(e *zerolog.Event) *zerolog.Event { return e.Float64("v", 3.141592653589793) },
+		"uint64":    func(e *zerolog.Event) *zerolog.Event { return e.Uint64("v", 1<<63+5) },
+		"negint":    func(e *zerolog.Event) *zerolog.Event { return e.Int64("v", -1<<62) },
+		"hex":       func(e *zerolog.Event) *zerolog.Event { return e.Hex("v", []byte("0123456789abcdefXYZ")) },
+		"bytes":     func(e *zerolog.Event) *zerolog.Event { return e.Bytes("v", []byte("bytes \"q\" \xff tail")) },
+		"str":       func(e *zerolog.Event) *zerolog.Event { return e.Str("v", "text with é and \n and \"quotes\"") },
+		"rawjson":   func(e *zerolog.Event) *zerolog.Event { return e.RawJSON("v", []byte(`{"a":[1,2,{"b":null}]}`)) },
+		"rawcbor": func(e *zerolog.Event) *zerolog.Event {
+			return e.RawCBOR("v", []byte{0x83, 1, 2, 0x62, 'h', 'i', 0xf6, 0xfb, 0x40, 9, 0x21, 0xfb, 0x54, 0x44, 0x2d, 0x18})
+		},
+		"ints": func(e *zerolog.Event) *zerolog.Event { return e.Ints("v", []int{1, -2, 300, -70000, 1 << 40}) },
+		"strs": func(e *zerolog.Event) *zerolog.Event { return e.Strs("v", []string{"a", "", "ccc", "é"}) },
+		"dict": func(e *zerolog.Event) *zerolog.Event {
+			return e.Dict("v", zerolog.Dict().Str("a", "b").Int("n", 7).Bool("t", true))
+		},
+		"interface": func(e *zerolog.Event) *zerolog.Event {
+			return e.Interface("v", map[string]interface{}{"k": []int{1, 2}})
+		},
+		"err":       func(e *zerolog.Event) *zerolog.Event { return e.Err(errors.New("an error text")) },
+		"bool+null": func(e *zerolog.Event) *zerolog.Event { return e.Bool("v", true).Interface("n", nil) },
+		"float32":   func(e *zerolog.Event) *zerolog.Event { return e.Float32("v", 2.5) },
+		"timestamp": func(e *zerolog.Event) *zerolog.Event { return e.Timestamp() },
+	}
+	emit := func(f func(l zerolog.Logger)) []byte {
+		var b bytes.Buffer
+		f(zerolog.New(&b))
+		return b.Bytes()
+	}
+	decode := func(in []byte) (string, error) {
+		var out bytes.Buffer
+		err := zerolog.VerifCbor2JsonManyObjects(bytes.NewReader(in), &out)
+		return out.String(), err
+	}
+	tail := emit(func(l zerolog.Logger) {
+		l.Info().Str("filler", strings.Repeat("t", 3000)).Msg("tail 1")
+		l.Warn().Str("filler", strings.Repeat("u", 3000)).Msg("tail 2")
+	})
+	names := make([]string, 0, len(kinds))
+	for k := range kinds {
+		names = append(names, k)
+	}
+	sort.Strings(names)
+	var n int64
+	for _, name := range names {
+		ev1 := emit(func(l zerolog.Logger) { kinds[name](l.Info()).Msg("m") })
+		// the value item starts a few bytes into the event (after the level field and the key)
+		for start := 4040 - len(ev1); start <= 4100; start++ {
+			if start < 20 {
+				continue
+			}
+			// a pad event of exactly `start` bytes: {"level":"info","p":"...."} has 20-odd bytes of framing
+			probe := emit(func(l zerolog.Logger) { l.Info().Str("p", "").Send() })
+			padLen := start - len(probe)
+			if padLen > 255 {
+				padLen -= 2 // the text-string head grows from 2 to 3 bytes above 255
+			} else if padLen > 23 {
+				padLen--
+			}
+			if padLen < 0 {
+				continue
+			}
+			pad := emit(func(l zerolog.Logger) { l.Info().Str("p", strings.Repeat("p", padLen)).Send() })
+			stream := append(append(append([]byte{}, pad...), ev1...), tail...)
+			a, err1 := decode(pad)
+			b, err2 := decode(ev1)
+			c, err3 := decode(tail)
+			whole, err := decode(stream)
+			n++
+			rec.Case([]byte(fmt.Sprint("align", name, len(pad))), true, "boundary-alignment", "kind:"+name)
+			if err1 != nil || err2 != nil || err3 != nil {
+				t.Fatalf("HARNESS-ERROR: the parts do not decode alone: %v %v %v", err1, err2, err3)
+			}
+			if err != nil || whole != a+b+c {
+				rc := map[string]interface{}{"kind": name, "event_offset": len(pad), "stream_hex": hex.EncodeToString(stream)}
+				ev.SaveReplay("C08-alignment", rc)
+				fmt.Printf("VERIF-FAIL: %s event at stream offset %d (item straddling the 4096-byte read buffer): whole-stream decode err=%v, %d bytes; event by event %d bytes\n", name, len(pad), err, len(whole), len(a+b+c))
+				t.Fatalf("%s at offset %d: whole-stream decode differs (err=%v): got %.200q want %.200q", name, len(pad), err, whole[len(a):], b)
+			}
+		}
+	}
+	rec.Exhaustive(fmt.Sprintf("%d item kinds x every start offset from 4040-len(event) to 4100 of the stream decoder's input, followed by 6 KiB of further events", len(names)))
 }
 
 func TestReplay(t *testing.T) {
